@@ -11,6 +11,102 @@
 #if defined(FOONATHAN_MEMORY_VERIF) && FOONATHAN_MEMORY_VERIF
 extern "C" void foonathan_memory_verif_yield(const char* site) noexcept;
 #define FOONATHAN_MEMORY_VERIF_YIELD(Site) foonathan_memory_verif_yield(Site)
+
+#include <atomic>
+
+namespace foonathan
+{
+    namespace memory
+    {
+        namespace detail
+        {
+            // std::atomic<T> with a scheduling point in front of every operation
+            template <typename T>
+            class verif_atomic
+            {
+            public:
+                constexpr verif_atomic(T v = T()) noexcept : v_(v) {}
+
+                verif_atomic(const verif_atomic&)            = delete;
+                verif_atomic& operator=(const verif_atomic&) = delete;
+
+                T load(std::memory_order o = std::memory_order_seq_cst) const noexcept
+                {
+                    foonathan_memory_verif_yield("atomic.load");
+                    return v_.load(o);
+                }
+                void store(T v, std::memory_order o = std::memory_order_seq_cst) noexcept
+                {
+                    foonathan_memory_verif_yield("atomic.store");
+                    v_.store(v, o);
+                }
+                T exchange(T v, std::memory_order o = std::memory_order_seq_cst) noexcept
+                {
+                    foonathan_memory_verif_yield("atomic.exchange");
+                    return v_.exchange(v, o);
+                }
+                bool compare_exchange_strong(T& e, T d,
+                                             std::memory_order o = std::memory_order_seq_cst) noexcept
+                {
+                    foonathan_memory_verif_yield("atomic.cas");
+                    return v_.compare_exchange_strong(e, d, o);
+                }
+                bool compare_exchange_weak(T& e, T d,
+                                           std::memory_order o = std::memory_order_seq_cst) noexcept
+                {
+                    foonathan_memory_verif_yield("atomic.cas");
+                    return v_.compare_exchange_weak(e, d, o);
+                }
+                T fetch_add(T d, std::memory_order o = std::memory_order_seq_cst) noexcept
+                {
+                    foonathan_memory_verif_yield("atomic.rmw");
+                    return v_.fetch_add(d, o);
+                }
+                T fetch_sub(T d, std::memory_order o = std::memory_order_seq_cst) noexcept
+                {
+                    foonathan_memory_verif_yield("atomic.rmw");
+                    return v_.fetch_sub(d, o);
+                }
+                operator T() const noexcept
+                {
+                    return load();
+                }
+                T operator=(T v) noexcept
+                {
+                    store(v);
+                    return v;
+                }
+                T operator+=(T d) noexcept
+                {
+                    return fetch_add(d) + d;
+                }
+                T operator-=(T d) noexcept
+                {
+                    return fetch_sub(d) - d;
+                }
+                T operator++() noexcept
+                {
+                    return fetch_add(T(1)) + T(1);
+                }
+                T operator--() noexcept
+                {
+                    return fetch_sub(T(1)) - T(1);
+                }
+                T operator++(int) noexcept
+                {
+                    return fetch_add(T(1));
+                }
+                T operator--(int) noexcept
+                {
+                    return fetch_sub(T(1));
+                }
+
+            private:
+                std::atomic<T> v_;
+            };
+        } // namespace detail
+    } // namespace memory
+} // namespace foonathan
 #else
 #define FOONATHAN_MEMORY_VERIF_YIELD(Site) ((void)0)
 #endif
